@@ -16,7 +16,7 @@ var profiles = map[string]*Profile{
 	"C14": {Name: "loop-control", MaxDepth: 4, MaxItems: 3, BreakN: true,
 		W: map[string]int{"marker": 3, "print": 1, "cloop": 5, "rloop": 4, "if": 2, "break": 3, "lazybreak": 3, "continue": 2, "ifok": 2}},
 	"C15": {Name: "variables", MaxDepth: 2, MaxItems: 8, Mods: true, OKFlags: true,
-		W: map[string]int{"marker": 1, "print": 4, "ctx": 5, "counter": 4, "if": 2, "cloop": 1, "rloop": 1, "dynprint": 6, "dyncond": 4, "ifok": 2, "pastprint": 2}},
+		W: map[string]int{"marker": 1, "print": 4, "ctx": 5, "counter": 4, "if": 2, "cloop": 3, "rloop": 1, "dynprint": 6, "dyncond": 4, "ifok": 2, "pastprint": 2}},
 	"C16": {Name: "include-exit", MaxDepth: 3, MaxItems: 5, Includes: true, Regions: true,
 		W: map[string]int{"marker": 3, "print": 2, "include": 5, "exit": 2, "if": 2, "switch": 1, "cloop": 2, "rloop": 2, "region": 1, "ctx": 1, "ifok": 2}},
 	"C17": {Name: "all-constructs-with-faults", MaxDepth: 3, MaxItems: 4, Includes: true, Regions: true, PfxSfx: true, Letters: true, Faults: true, BreakN: true,
